@@ -362,6 +362,32 @@ def r4_bindings_compared_by_equality(ctx):
                         if b.reachable(tg, avoid=cmp_blocks) & (rets | loop_heads):
                             bad = True
                     ok = bool(cmp_blocks) and bool(some_targets) and not bad
+                    if not ok and c.split('::')[-1] == 'insert' and not d.get('p'):
+                        # the same comparison written with a combinator: `insert(..).filter(|previous| previous != assigned)` (a conflict is what
+                        # is left), `is_some_and(|p| p != x)`, `map_or(true, |p| p == x)`: the closure compares its argument by PartialEq on Type,
+                        # and the result of the combinator is what the function returns or tests
+                        wide = forward_derived(b, {d['l']}, through_calls=True)
+                        for cb, ct in b.calls():
+                            m = (callee(ct) or '').split('::')[-1]
+                            if m not in ('filter', 'is_some_and', 'is_none_or', 'map_or', 'map', 'and_then', 'take_if') or not ct['args']:
+                                continue
+                            q0 = op_place(ct['args'][0])
+                            if q0 is None or q0['l'] not in wide:
+                                continue
+                            compares = False
+                            for cl in ctx.fb.bodies_of_item(CR, b.nroot):
+                                if cl.nid == cl.nroot or cl.is_promoted:
+                                    continue
+                                if any(callee(x) in ('core::cmp::PartialEq::ne', 'core::cmp::PartialEq::eq') and x.get('aty') and strip_generics(x['aty'][0]).lstrip('&') == TY
+                                       for _, x in cl.calls()):
+                                    compares = True
+                            res = ct['dest']['l'] if not ct['dest'].get('p') else None
+                            res_der = forward_derived(b, {res}, through_calls=True) if res is not None else set()
+                            used = 0 in res_der or res == 0 or any((b.term(sb) or {}).get('k') == 'switch' and ((b.term(sb).get('src') or {}).get('l') in res_der or
+                                                                   (op_place(b.term(sb).get('d') or {}) or {}).get('l') in res_der) for sb in b.live_blocks())
+                            if compares and used:
+                                ok = True
+                                cmp_blocks = [cb]
                     if not ok and c.split('::')[-1] == 'insert' and _vacant_insert(b, bb, t):
                         ctx.ob('C17.R4', 'binding-compared|%s|bb-order-%d' % (fn.split('::')[-1], n), True, b.loc(bb, t),
                                'this insert only runs when a lookup of the same key in the same map has just found nothing: there is no previous binding to compare')
@@ -524,6 +550,55 @@ def r7_length_before_zip(ctx):
                     continue
                 differ = w['else'] if rv['bop'] == 'Ne' else zero[0]
                 tests.append((bb, differ, srcs[0] | srcs[1]))
+            # the same test kept in a flag: `let same_shape = a.abi == b.abi && a.inputs.len() == b.inputs.len(); same_shape && zip..` — a bool
+            # local every definition of which is either `false` or (a copy of) the result of the length comparison is true only if the lengths agree
+            eq_results = {}
+            for bb, j, st in b.all_assigns():
+                rv = st['rv']
+                if rv['k'] == 'bin' and rv['bop'] == 'Eq' and not st['lhs'].get('p'):
+                    srcs = []
+                    for o in (rv['a'], rv['b']):
+                        pl = op_place(o)
+                        if pl is not None:
+                            _, locs = backward_slice(b, pl['l'], defs, through_calls=False)
+                            srcs.append({lens[l] for l in locs | {pl['l']} if l in lens})
+                    if len(srcs) == 2 and srcs[0] and srcs[1]:
+                        eq_results[st['lhs']['l']] = srcs[0] | srcs[1]
+
+            def implied(l, depth=0):
+                if l in eq_results:
+                    return eq_results[l]
+                ds = defs.full.get(l, [])
+                if depth > 4 or not ds or b.locals[l] != 'bool':
+                    return None
+                tys, some = set(), False
+                for _, _, nd in ds:
+                    rv = nd.get('rv')
+                    if not rv or rv['k'] != 'use':
+                        return None
+                    o = rv['op']
+                    if o.get('int') == '0':
+                        continue
+                    q = op_place(o)
+                    if q is None or q.get('p'):
+                        return None
+                    sub = implied(q['l'], depth + 1)
+                    if sub is None:
+                        return None
+                    tys |= sub
+                    some = True
+                return tys if some else None
+            for sb in b.live_blocks():
+                w = b.term(sb)
+                if not w or w['k'] != 'switch' or 'enum' in w:
+                    continue
+                q = op_place(w['d'])
+                if q is None or q.get('p') or q['l'] in eq_results:
+                    continue
+                tys = implied(q['l'])
+                zero = [tg for v, tg in w['ts'] if v == '0']
+                if tys and zero:
+                    tests.append((sb, zero[0], tys))
             for bb, t in b.calls():
                 if callee(t) != 'core::iter::traits::iterator::Iterator::zip' or 'rustdoc_ir::' not in t['aty'][0]:
                     continue    # only lists of types / generic arguments / fn-pointer inputs
